@@ -39,6 +39,93 @@ func isCloseOnNetConn(cc *ssa.CallCommon) bool {
 
 func isOnClose(cc *ssa.CallCommon) bool { return isDynCallOfField(cc, G, "Server", "onCloseHandler") }
 
+// onCloseNotifier: f does nothing but report a closed connection: it calls
+// s.onCloseHandler(<its parameter i>) exactly once when a handler is set and
+// returns without calling it otherwise (`func (s *Server) notifyClosed(id int)`).
+func onCloseNotifier(f *ssa.Function) (int, bool) {
+	if f == nil || !an.InModule(f) || len(f.Blocks) == 0 {
+		return 0, false
+	}
+	var oc ssa.CallInstruction
+	n := 0
+	other := false
+	for _, ci := range an.Calls(f) {
+		cc := ci.Common()
+		switch {
+		case isOnClose(cc):
+			n++
+			oc = ci
+		case cc.IsInvoke() && an.TypeIs(cc.Value.Type(), "github.com/hashicorp/go-hclog", "Logger"):
+		default:
+			other = true
+		}
+	}
+	if n != 1 || other || !isCall(oc) {
+		return 0, false
+	}
+	idx := -1
+	for i, p := range f.Params {
+		if an.Strip(oc.Common().Args[0]) == ssa.Value(p) {
+			idx = i
+		}
+	}
+	if idx < 0 {
+		return 0, false
+	}
+	an.Instrs(f, func(in ssa.Instruction) {
+		if _, isSt := in.(*ssa.Store); isSt {
+			other = true
+		}
+	})
+	if other {
+		return 0, false
+	}
+	isHandlerNil := func(v ssa.Value) bool {
+		x, _, ok := an.NilCheck(v)
+		if !ok {
+			return false
+		}
+		_, ok = fieldLoad(x, G, "Server", "onCloseHandler")
+		return ok
+	}
+	// a return that skips the call is under "handler == nil"; the call is never repeated
+	for _, ret := range an.Returns(f) {
+		if an.Search(an.Entry(f), isInstr(ret), isInstr(oc)) != nil {
+			nilSide := false
+			for _, fct := range an.BranchFacts(ret.Block()) {
+				cond, neg := an.Not(fct.Cond)
+				if isHandlerNil(cond) {
+					_, trueMeansNil, _ := an.NilCheck(cond)
+					if (fct.True != neg) == trueMeansNil {
+						nilSide = true
+					}
+				}
+			}
+			if !nilSide {
+				return 0, false
+			}
+		}
+	}
+	if an.Search(an.After(oc), isInstr(oc), nil) != nil {
+		return 0, false
+	}
+	return idx, true
+}
+
+// onCloseReport: the call reports a closed connection to the OnClose handler,
+// directly or through a notifier helper; returns the ID argument.
+func onCloseReport(cc *ssa.CallCommon) (id ssa.Value, viaHelper bool, ok bool) {
+	if isOnClose(cc) {
+		return cc.Args[0], false, true
+	}
+	if f := an.StaticCallee(cc); f != nil {
+		if i, isN := onCloseNotifier(f); isN && i < len(cc.Args) {
+			return cc.Args[i], true, true
+		}
+	}
+	return nil, false, false
+}
+
 func checkC08(c *Ctx) {
 	R := c.R
 	m := c.serverModel()
@@ -133,9 +220,11 @@ func checkC08(c *Ctx) {
 	// ---- C08-sequence inside teardown: close -> onClose; callback attempted on every path
 	T := m.teardown
 	var oncloseCalls []ssa.CallInstruction
+	viaNotifier := false
 	for _, ci := range an.Calls(T) {
-		if isOnClose(ci.Common()) {
+		if _, via, ok := onCloseReport(ci.Common()); ok {
 			oncloseCalls = append(oncloseCalls, ci)
+			viaNotifier = via
 		}
 	}
 	if len(oncloseCalls) != 1 {
@@ -160,6 +249,20 @@ func checkC08(c *Ctx) {
 			return ok
 		})
 		switch {
+		case viaNotifier:
+			// the nil test lives in the notifier helper: every path through the teardown calls the helper exactly once
+			ok := true
+			if w := an.Search(an.Entry(T), an.IsReturn, isInstr(oc)); w != nil {
+				ok = false
+				R.Fail("C08-sequence", fname(T)+": onCloseHandler on every path", c.pos(oc), "a path leaves the teardown without reporting the closed connection (e.g. an early return when close fails): "+c.trail(w))
+			}
+			if an.Search(an.After(oc), isInstr(oc), nil) != nil {
+				ok = false
+				R.Fail("C08-sequence", fname(T)+": onCloseHandler on every path", c.pos(oc), "the callback can run more than once")
+			}
+			if ok {
+				R.OK("C08-sequence", fname(T)+": onCloseHandler on every path", c.pos(oc), "every path through the teardown calls the notifier helper exactly once; the helper calls the handler exactly when one is set")
+			}
 		case len(guards) != 1:
 			R.Unknown("C08-sequence", fname(T)+": onCloseHandler on every path", c.pos(oc), sprintf("expected one `s.onCloseHandler != nil` test guarding the callback, found %d", len(guards)))
 		default:
@@ -214,7 +317,11 @@ func checkC08(c *Ctx) {
 				R.Check(f == m.closeFn, "C08-only", fname(f)+": net.Conn.Close", c.pos(ci), "only (*conn).close closes the socket", "a net.Conn is closed outside (*conn).close")
 			case isOnClose(cc):
 				nOnly++
-				R.Check(f == T, "C08-only", fname(f)+": onCloseHandler", c.pos(ci), "only the teardown reports OnClose", "onCloseHandler is invoked outside the connection teardown")
+				_, inNotifier := onCloseNotifier(f)
+				R.Check(f == T || inNotifier, "C08-only", fname(f)+": onCloseHandler", c.pos(ci), "only the teardown (or its notifier helper) reports OnClose", "onCloseHandler is invoked outside the connection teardown")
+			case func() bool { _, via, ok := onCloseReport(cc); return ok && via }():
+				nOnly++
+				R.Check(f == T, "C08-only", fname(f)+": OnClose notifier", c.pos(ci), "only the teardown calls the notifier helper", "the OnClose notifier helper is called outside the connection teardown")
 			}
 		}
 	}
@@ -650,10 +757,11 @@ func checkC09(c *Ctx) {
 	}
 	// C09-onclose
 	for _, ci := range an.Calls(m.teardown) {
-		if !isOnClose(ci.Common()) {
+		idv, _, isRep := onCloseReport(ci.Common())
+		if !isRep {
 			continue
 		}
-		arg := an.StripX(ci.Common().Args[0])
+		arg := an.StripX(idv)
 		// the ID handed back by a helper of the teardown (`id, err := s.closeConn(conn, done)`): every return of the
 		// helper must yield the connID of the conn it was given
 		if ex, isEx := arg.(*ssa.Extract); isEx {
@@ -694,7 +802,7 @@ func checkC09(c *Ctx) {
 			}
 		}
 		R.Check(arg == an.StripX(idArg), "C09-onclose", fname(m.teardown)+": onCloseHandler(id)", c.pos(ci),
-			"argument is a per-iteration copy of the very value given to newConn", "OnClose receives "+an.Path(ci.Common().Args[0])+", not the ID given to newConn for this connection")
+			"argument is a per-iteration copy of the very value given to newConn", "OnClose receives "+an.Path(idv)+", not the ID given to newConn for this connection")
 	}
 	R.Floor("C09-onclose", 1)
 	R.Assumptions = append(R.Assumptions, "one Run per Server: IDs restart at 1 if Run is called again on the same Server", "no wrap-around of int")
@@ -1145,6 +1253,9 @@ func checkC12(c *Ctx) {
 		}
 		nErr++
 		ok := hasFact(ret.Block(), false, isClosedAtom)
+		if !ok {
+			ok = c.errFromCloseHelper(ret, m)
+		}
 		R.Check(ok, "C12-idempotent", "(*Server).Stop: error return", c.pos(ret), "only when listener.Close failed for a reason other than already-closed", "Stop can return an error on a repeated call (error return not guarded by the already-closed test)")
 	}
 	R.Count("C12-idempotent/error-returns", nErr)
@@ -1216,6 +1327,36 @@ func (c *Ctx) checkStopOrder(rule string, m *serverModel) {
 			}
 		}
 		if call == nil {
+			// the step may live in a helper of Stop (`s.closeListener()`): it performs the call unless the field is nil
+			for _, ci := range an.Calls(stop) {
+				h := an.StaticCallee(ci.Common())
+				if h == nil || !an.InModule(h) || len(h.Blocks) == 0 || !isCall(ci) || len(ci.Common().Args) == 0 || an.Strip(ci.Common().Args[0]) != ssa.Value(stop.Params[0]) {
+					continue
+				}
+				var hc ssa.CallInstruction
+				n := 0
+				for _, ic := range an.Calls(h) {
+					if st.isIt(ic.Common()) && isCall(ic) {
+						hc = ic
+						n++
+					}
+				}
+				if n != 1 {
+					continue
+				}
+				okH := true
+				for _, ret := range an.Returns(h) {
+					if an.Search(an.Entry(h), isInstr(ret), isInstr(hc)) != nil &&
+						!nilFact(ret.Block(), true, func(x ssa.Value) bool { _, okf := fieldLoad(x, G, "Server", st.field); return okf }) {
+						okH = false
+					}
+				}
+				if okH {
+					call = ci
+				}
+			}
+		}
+		if call == nil {
 			R.Fail(rule, key, c.pos(wait), "Stop never calls "+st.name)
 			continue
 		}
@@ -1267,4 +1408,82 @@ func (c *Ctx) checkStopOrder(rule string, m *serverModel) {
 			R.Fail(rule, key, c.pos(ret), "Stop can return nil without having cancelled the shutdown context and waited for the connections: handlers may still be running and OnClose not yet called when Stop returns: "+c.trail(an.Search(an.Entry(stop), isInstr(ret), isInstr(wait))))
 		}
 	}
+}
+
+// errFromCloseHelper: Stop's error return is taken only when a helper that
+// closes the listener returned a non-nil error, and that helper returns a
+// non-nil error only when listener.Close failed for a reason other than
+// "already closed".
+func (c *Ctx) errFromCloseHelper(ret *ssa.Return, m *serverModel) bool {
+	var hcall *ssa.Call
+	for _, fct := range an.BranchFacts(ret.Block()) {
+		cond, neg := an.Not(fct.Cond)
+		x, trueMeansNil, ok := an.NilCheck(cond)
+		if !ok || (fct.True != neg) == trueMeansNil {
+			continue // not an "x != nil" fact
+		}
+		if call, isCall := an.Strip(x).(*ssa.Call); isCall {
+			if h := an.StaticCallee(call.Common()); h != nil && an.InModule(h) && len(h.Blocks) > 0 && isErrorType(call.Type()) {
+				hcall = call
+			}
+		}
+	}
+	if hcall == nil {
+		return false
+	}
+	h := an.StaticCallee(hcall.Common())
+	var closeCall *ssa.Call
+	for _, ic := range an.Calls(h) {
+		if isListenerClose(ic.Common()) {
+			if cc, ok := ic.(*ssa.Call); ok {
+				closeCall = cc
+			}
+		}
+	}
+	if closeCall == nil {
+		return false
+	}
+	closedIfs := ifsOn(h, isClosedAtom)
+	if len(closedIfs) == 0 {
+		return false
+	}
+	// the value of `err != nil` (err the Close error) as SearchCorr keys it
+	known := map[string]bool{}
+	for _, g := range ifsOn(h, func(v ssa.Value) bool {
+		x, _, ok := an.NilCheck(v)
+		return ok && an.Strip(x) == ssa.Value(closeCall)
+	}) {
+		v, _ := an.Not(g.If.Cond)
+		_, trueMeansNil, _ := an.NilCheck(v)
+		k, kneg := an.CondKey(g.If.Cond)
+		// un-negated key truth when err is non-nil: the NilCheck comparison is true iff (non-nil != trueMeansNil)... evaluate:
+		cmpTrue := !trueMeansNil // value of the comparison `v` when err != nil
+		_, ineg := an.Not(g.If.Cond)
+		condVal := cmpTrue != ineg // value of the If's condition
+		known[k] = condVal != kneg
+	}
+	for _, r := range an.Returns(h) {
+		res := an.ReturnResults(r)
+		if len(res) != 1 || an.IsNilConst(an.Strip(res[0])) {
+			continue
+		}
+		for _, g := range closedIfs {
+			closedSide := succOn(g.If, !g.Neg)
+			if an.Search(an.Point{B: closedSide, I: 0}, isInstr(r), nil) != nil {
+				return false // an "already closed" error can reach this error return
+			}
+		}
+		avoid := func(in ssa.Instruction) bool {
+			for _, g := range closedIfs {
+				if in == ssa.Instruction(g.If) {
+					return true
+				}
+			}
+			return false
+		}
+		if an.SearchCorr(an.After(closeCall), isInstr(r), avoid, known) != nil {
+			return false // with a failed Close the return is reachable without asking whether it was "already closed"
+		}
+	}
+	return true
 }
